@@ -244,7 +244,7 @@ var CertTypeToString = map[uint16]string{
 	CertPKIX:    "PKIX",
 	CertSPKI:    "SPKI",
 	CertPGP:     "PGP",
-	CertIPIX:    "IPIX",
+	CertIPIX:    "IPKIX",
 	CertISPKI:   "ISPKI",
 	CertIPGP:    "IPGP",
 	CertACPKIX:  "ACPKIX",
